@@ -3,10 +3,10 @@
 package props
 
 import (
-	"slices"
 	"fmt"
 	"math/rand/v2"
 	"runtime"
+	"slices"
 
 	"github.com/creachadair/mds/slice"
 	"verif/harness/fw"
@@ -27,8 +27,10 @@ func init() {
 				Procs:    16,
 				Rule: "case = pair (lhs, rhs) of int sequences. Exhaustive: every pair over alphabet 3 x length <= 7 (10,758,400 pairs), alphabet 2 x length <= 9 (1,046,529 pairs) and alphabet 4 x length <= 5 (1,863,225 pairs) in quick; additionally alphabet 2 x length <= 11, alphabet 3 x length <= 8 (96.8 M pairs) and alphabet 5 x length <= 5 in thorough; every pair of windows (prefix/prefix, window/prefix, suffix/prefix) of one shared backing array of up to 9 binary elements (inputs that alias each other); pairs of 4100..11700 elements (length products past 2^24..2^27: a repeated block removed, scattered edits); wrap-around schedules (a larger call, exactly N one-element calls for N around 2^8, 2^9, 2^16, 2^17, then a larger call on unrelated content, all on one P); random pairs of length up to 400 made of long common runs with point mutations, insertions, deletions and block moves over alphabets of 2..50 symbols. " +
 					"Per pair: interpreter (each edit's X and Y are the spans of lhs and rhs at the current offsets, by value and by address; lhs consumed and rhs produced exactly), emitted element count == LCS length from an independent O(mn) table, canonical form (no empty edit, adjacent edits differ in kind, no Drop next to Copy, only the four opcodes, empty iff equal), inputs unmodified; a sample of returned scripts is kept and verified again after later calls; 8 goroutines call EditScript concurrently on unshared inputs (plain and under -race); interleaved with all of it, calls that fail half-way and are recovered by the caller (uncomparable interface elements compared with ==, a panicking equality function), so that every verified call also runs right after a failed one. " +
+					"Element types whose == is not reflexive (floats holding NaN, structs and arrays of them; +0 and -0): two unrelated slices, the same slice as both arguments, windows of one backing array; the result must be the one the int instantiation gives on codes that are equal exactly where the elements are ==. " +
+					"Pairs that differ by exactly one substitution, insertion or deletion at the first, second, middle, last-but-one and last position, for 39 lengths from 1 to 5000. " +
 					"distinct = the pair itself (enumerated without repetition; random pairs by hash); non-trivial = the pair has more than one optimal alignment (counted by a separate DP)",
-				Required:     []string{"pairs", "ambiguous_pairs", "replace_edits", "equal_pairs", "random_pairs", "aliased_pairs", "concurrent_calls", "kept_results_rechecked", "interface_element_cases", "abandoned_calls", "very_large_pairs", "wraparound_schedules", "subsequence_boundary_pairs"},
+				Required:     []string{"pairs", "ambiguous_pairs", "replace_edits", "equal_pairs", "random_pairs", "aliased_pairs", "concurrent_calls", "kept_results_rechecked", "interface_element_cases", "non_reflexive_element_cases", "single_point_edit_pairs", "abandoned_calls", "very_large_pairs", "wraparound_schedules", "subsequence_boundary_pairs"},
 				Exhaustive:   true,
 				Assumptions:  []string{"the O(mn) LCS table is the reference for minimality"},
 				CoverPkgs:    []string{"github.com/creachadair/mds/slice"},
@@ -348,6 +350,76 @@ func c11anyElems(c *fw.Ctx) {
 	}
 }
 
+// c11floatElems: EditScript on element types whose == is not reflexive (NaN),
+// given as unrelated slices, as the same slice twice and as windows of one
+// array; the script must have the shape of the int instantiation on codes that
+// are equal exactly where the elements are ==.
+func c11floatElems(c *fw.Ctx) {
+	r := c.Rng()
+	for k := 0; k < 240; k++ {
+		p := nrPairOf(r, k)
+		want := slice.EditScript(p.CA, p.CB)
+		data := map[string]any{"lhs": nrShow(p.A), "rhs": nrShow(p.B), "arguments": p.How}
+		c.Add("non_reflexive_element_cases", 1)
+		var got []slice.Edit[float64]
+		ok, pv, stack := fw.Try(func() { got = slice.EditScript(p.A, p.B) })
+		c.Step()
+		if !ok {
+			c.FailKind("panic", data, "EditScript on float elements panicked: %v\n%s", pv, stack)
+			return
+		}
+		same := len(got) == len(want)
+		for i := 0; same && i < len(got); i++ {
+			same = got[i].Op == want[i].Op && len(got[i].X) == len(want[i].X) && len(got[i].Y) == len(want[i].Y)
+		}
+		if !same {
+			c.Fail(data, "EditScript on []float64 gives %v; the int instantiation on codes that are equal exactly where the floats are == (NaN equals nothing) gives %v", got, want)
+			return
+		}
+	}
+}
+
+// c11pointEdits: pairs that differ by exactly one substitution, insertion or
+// deletion at the first, second, middle, last-but-one or last position, for a
+// spread of lengths up to several thousand.
+func c11pointEdits(c *fw.Ctx, base int) {
+	lens := []int{1, 2, 3, 7, 8, 31, 32, 33, 63, 64, 65, 100, 127, 128, 129, 255, 256, 257, 300, 500, 511, 512, 513, 999, 1000, 1001, 1023, 1024, 1025, 1500, 2000, 2047, 2048, 2049, 3000, 4095, 4096, 4097, 5000}
+	for li, n := range lens {
+		if li%c.NBlocks != c.Block {
+			continue
+		}
+		if !c.Begin(base + li) {
+			continue
+		}
+		r := c.Rng()
+		lhs := make([]int, n)
+		alpha := []int{2, 10, 1 << 20}[li%3]
+		for i := range lhs {
+			lhs[i] = r.IntN(alpha)
+		}
+		for _, p := range []int{0, 1, n / 2, n - 2, n - 1} {
+			if p < 0 || p >= n {
+				continue
+			}
+			for kind := 0; kind < 3; kind++ {
+				var rhs []int
+				switch kind {
+				case 0: // substitution
+					rhs = append([]int(nil), lhs...)
+					rhs[p] = alpha + 5
+				case 1: // deletion
+					rhs = append(append([]int(nil), lhs[:p]...), lhs[p+1:]...)
+				case 2: // insertion (after position p)
+					rhs = append(append(append([]int(nil), lhs[:p+1]...), alpha+5), lhs[p+1:]...)
+				}
+				c11check(c, lhs, rhs)
+				c11check(c, rhs, lhs)
+				c.Add("single_point_edit_pairs", 2)
+			}
+		}
+	}
+}
+
 func runC11(c *fw.Ctx) {
 	defer c11recheckKept(c)
 	if c.Flavour == "race" {
@@ -357,7 +429,9 @@ func runC11(c *fw.Ctx) {
 	c11concurrent(c, 1<<22)
 	if c.Block == 0 && c.Begin(1<<23) {
 		c11anyElems(c)
+		c11floatElems(c)
 	}
+	c11pointEdits(c, 1<<23+4096)
 	idx := 0
 	type space struct{ a, maxLen int }
 	spaces := []space{{3, 7}, {2, 9}, {4, 5}}
